@@ -51,7 +51,7 @@ fn rules() -> Vec<(String, Expr)> {
         ("map order".into(), Expr::Map(m)),
         ("type error".into(), Expr::add(Expr::reff("a"), Expr::value("x".to_string()))),
         // rules made of literals only (anything computed once per ruleset and published to other threads would be these)
-        ("constant table".into(), Expr::Vec((0..if cfg!(miri) { 4 } else { 300 }).map(|i| Expr::Vec(vec![Expr::value(i as i128), Expr::value(format!("row {i}"))])).collect())),
+        ("constant table".into(), Expr::Vec((0..if cfg!(miri) || CHURN.load(Ordering::Relaxed) { 4 } else { 300 }).map(|i| Expr::Vec(vec![Expr::value(i as i128), Expr::value(format!("row {i}"))])).collect())),
         ("constant".into(), Expr::add(Expr::value(40), Expr::value(2))),
         // every built-in that parses or converts, on operands that differ from task to task (anything memoised process-wide —
         // the last parsed date, the last cast — would be shared by all threads)
